@@ -66,7 +66,7 @@ def annGate (g : Graph) (a : ChanAnn) : Option Reject :=
   match Impl.chanAnnPre g a with
   | some r => some r
   | none =>
-    if a.verify && !a.sigsOk then some .badSig
+    if a.verify && !Impl.chanAnnSigsVerify a then some .badSig
     else if Gen.annRecentlyRemoved g.removedChannels.contains g.removedNodes.contains a.scid a.n1 a.n2 then
       some .recentlyRemoved
     else none
